@@ -124,7 +124,8 @@ def check_refs(name, text, by_name, result, all_results):
         if missing and result[1] in ('SourceNotFound', 'ImageNotFound', 'InternalQuadletError', 'PodNotFound'):
             if not any(m[1] in result[2] for m in missing):
                 fails.append(f'the error must name a missing file of {[m[1] for m in missing]}: {result[2]!r}')
-        named = [w for w in wanted if w[1] in result[2] and w[1] != name]
+        import re as _re
+        named = [w for w in wanted if _re.search(r'(?<![\w.@-])' + _re.escape(w[1]) + r'(?![\w-])', result[2]) and w[1] != name]   # (the file name as a whole word: b.container is not named by an error about db.container)
         if not missing and result[1] in ('InvalidResourceNameIn', 'SourceNotFound', 'ImageNotFound') and named \
                 and all(refs.object_name(w[1], by_name[w[1]]) not in (None, '') for w in named) \
                 and all(all_results.get(w[1]) is not None and all_results[w[1]][0] == 'svc' for w in named):
